@@ -243,7 +243,8 @@ fn text_parsers(ctx: &mut Ctx) {
     ctx.begin_case("short-strings");
     let mut n = 0u64;
     let mut all: Vec<String> = Vec::new();
-    gentext::enumerate(&SYMBOLS, 3, &mut |s| all.push(s.to_string()));
+    let maxlen = if ctx.config == "miri" { 2 } else { 3 };
+    gentext::enumerate(&SYMBOLS, maxlen, &mut |s| all.push(s.to_string()));
     // 4-letter castling strings too
     gentext::enumerate_exact(&["K", "Q", "k", "q", "-"], 4, &mut |s| all.push(s.to_string()));
     gentext::enumerate_exact(&["K", "Q", "k", "q"], 5, &mut |s| all.push(s.to_string()));
